@@ -16,7 +16,7 @@ THEOREMS = ["CKT.C08." + t for t in [
     "phi_insertKey", "phi_put", "children_wt", "expand_good", "loop_complete", "pass_complete", "cut_ranked", "passes_complete",
     "optimize_complete", "pass_ub", "passes_origin", "optimize_origin", "optimize_seed_independent", "unrestricted_seed_independent"]]
 RULE = ("as C07, with emphasis on search limits: gamma limits below, at and above the optimum, backjump limits 0..100 and none, several seeds "
-        "per circuit; thorough: every circuit on 3 qubits with up to 3 cx gates x width 1..2 x every permitted-cut combination against the "
+        "per circuit; fixed families: greedy warm start with wire cuts vs cheaper gate-cut optimum, several quantum registers; thorough: every circuit on 3 qubits with up to 3 cx gates x width 1..2 x every permitted-cut combination against the "
         "brute force over all 5^g plans; compared with the model: flag, overhead (exactly on integer-kappa circuits), cut circuit; distinct by payload")
 ASSUMPTIONS = ["the theorem `optimize_flag_sound` quantifies over the goal states of the model's search tree (per-gate choices that pass the action "
                "guards within the wire budget); that these are, cost-wise, all width-feasible plans of the specification (useless-cut argument) is "
@@ -37,6 +37,10 @@ def _wire_then_gate(rng):
 
 def cases(rng, tier):
     N = 120 if tier == "quick" else 1500
+    # deterministic families (independent of the seed, oracle always run): unrestricted searches whose greedy warm start contains wire cuts while
+    # the optimum lies between that answer's entangled-pair (LOCC) cost and its LO cost; circuits on several quantum registers
+    for p in cutfind.family_bound_gap() + cutfind.family_registers():
+        yield ("find_cuts", p)
     for _ in range(4 if tier == "quick" else 30):
         yield ("find_cuts", _wire_then_gate(rng))
     for _ in range(5 if tier == "quick" else 40):
